@@ -8,6 +8,7 @@ import (
 	"go/types"
 	"math/big"
 	"sort"
+	"strings"
 
 	"golang.org/x/tools/go/ssa"
 )
@@ -247,7 +248,7 @@ func (fr *Frame) load(addr string, t types.Type) *Val {
 	for _, l := range flatten(t) {
 		rememberLeaf(l)
 		a := add(addr, intLit(int64(l.Slot)))
-		v.L = append(v.L, sel(fr.vc.arr(fr.st, l), a))
+		v.L = append(v.L, fr.vc.read(fr.st, l, a))
 	}
 	if mt, ok := t.Underlying().(*types.Map); ok {
 		v.Map = &SymMap{opaque: true, elemT: mt.Elem(), keyT: mt.Key()}
@@ -268,6 +269,7 @@ func (fr *Frame) storeVal(addr string, t types.Type, v *Val) {
 	for i, l := range leaves {
 		rememberLeaf(l)
 		a := add(addr, intLit(int64(l.Slot)))
+		fr.vc.logStore(l.Key, a, "")
 		fr.vc.setArr(fr.st, l, store(fr.vc.arr(fr.st, l), a, v.L[i]))
 	}
 }
@@ -275,6 +277,9 @@ func (fr *Frame) storeVal(addr string, t types.Type, v *Val) {
 // alloc reserves count (a term) values of type t and returns the address.
 func (fr *Frame) alloc(t types.Type, count string) string {
 	addr := fr.st.wm
+	if fr.vc.logStores {
+		fr.vc.allocLog[addr] = true
+	}
 	n := int64(allocSlots(t))
 	size := add(mul(count, intLit(n)), "1")
 	fr.st.wm = fr.vc.define(fr.prefix+"_wm", "Int", add(addr, size))
@@ -289,10 +294,14 @@ func (fr *Frame) zeroRange(t types.Type, base, count string) {
 			for _, l := range flatten(t) {
 				rememberLeaf(l)
 				a := add(base, intLit(k*n+int64(l.Slot)))
+				fr.vc.logStore(l.Key, a, "")
 				fr.vc.setArr(fr.st, l, store(fr.vc.arr(fr.st, l), a, zeroLeaf(l)))
 			}
 		}
 		return
+	}
+	for _, l := range flatten(t) {
+		fr.vc.logStore(l.Key, base, mul(count, intLit(n)))
 	}
 	if fr.vc.w.unroll > 0 {
 		// replay aid: sizes are bounded and the bulk operation is expanded
@@ -317,8 +326,11 @@ func (fr *Frame) zeroRange(t types.Type, base, count string) {
 		rememberLeaf(l)
 		old := fr.vc.arr(fr.st, l)
 		nw := fr.vc.fresh(l.Key, "(Array Int "+l.Sort+")")
-		fr.vc.assume(fmt.Sprintf("(forall ((a Int)) (! (= (select %s a) (ite (and (<= %s a) (< a %s)) %s (select %s a))) :pattern ((select %s a))))",
-			nw, base, hi, zeroLeaf(l), old, nw))
+		zl := zeroLeaf(l)
+		fr.vc.addAxiom(l.Key, fmt.Sprintf("(forall ((a Int)) (! (= (select %s a) (ite (and (<= %s a) (< a %s)) %s (select %s a))) :pattern ((select %s a))))",
+			nw, base, hi, zl, old, nw), func(idx string) (string, []string) {
+			return eq(sel(nw, idx), ite(and(le(base, idx), lt(idx, hi)), zl, sel(old, idx))), nil
+		})
 		fr.st.heap[l.Key] = nw
 	}
 }
@@ -337,13 +349,17 @@ func (fr *Frame) copyRange(t types.Type, dst, src, count string) {
 			for _, l := range flatten(t) {
 				rememberLeaf(l)
 				off := intLit(k*n + int64(l.Slot))
-				ws = append(ws, wr{l, add(dst, off), sel(fr.vc.arr(fr.st, l), add(src, off))})
+				ws = append(ws, wr{l, add(dst, off), fr.vc.read(fr.st, l, add(src, off))})
 			}
 		}
 		for _, w := range ws {
+			fr.vc.logStore(w.l.Key, w.a, "")
 			fr.vc.setArr(fr.st, w.l, store(fr.vc.arr(fr.st, w.l), w.a, w.v))
 		}
 		return
+	}
+	for _, l := range flatten(t) {
+		fr.vc.logStore(l.Key, dst, mul(count, intLit(n)))
 	}
 	if fr.vc.w.unroll > 0 {
 		fr.vc.assume(imp(fr.reach, le(count, intLit(replayBulk))))
@@ -357,7 +373,7 @@ func (fr *Frame) copyRange(t types.Type, dst, src, count string) {
 			for _, l := range flatten(t) {
 				rememberLeaf(l)
 				off := intLit(k*n + int64(l.Slot))
-				ws = append(ws, wr{l, add(dst, off), fr.vc.define("cp", l.Sort, sel(fr.vc.arr(fr.st, l), add(src, off))), k})
+				ws = append(ws, wr{l, add(dst, off), fr.vc.define("cp", l.Sort, fr.vc.read(fr.st, l, add(src, off))), k})
 			}
 		}
 		for _, w := range ws {
@@ -376,8 +392,11 @@ func (fr *Frame) copyRange(t types.Type, dst, src, count string) {
 		rememberLeaf(l)
 		old := fr.vc.arr(fr.st, l)
 		nw := fr.vc.fresh(l.Key, "(Array Int "+l.Sort+")")
-		fr.vc.assume(fmt.Sprintf("(forall ((a Int)) (! (= (select %s a) (ite (and (<= %s a) (< a %s)) (select %s (+ %s (- a %s))) (select %s a))) :pattern ((select %s a))))",
-			nw, dst, hi, old, src, dst, old, nw))
+		fr.vc.addAxiom(l.Key, fmt.Sprintf("(forall ((a Int)) (! (= (select %s a) (ite (and (<= %s a) (< a %s)) (select %s (+ %s (- a %s))) (select %s a))) :pattern ((select %s a))))",
+			nw, dst, hi, old, src, dst, old, nw), func(idx string) (string, []string) {
+			from := add(src, sub(idx, dst))
+			return eq(sel(nw, idx), ite(and(le(dst, idx), lt(idx, hi)), sel(old, from), sel(old, idx))), []string{from}
+		})
 		fr.st.heap[l.Key] = nw
 	}
 }
@@ -868,6 +887,7 @@ func (fr *Frame) execLoopCut(l *Loop, in []*Edge) map[*ssa.BasicBlock][]*Edge {
 			if lc != nil {
 				nlc.Invariants = append(nlc.Invariants, lc.Invariants...)
 				nlc.Decreases = lc.Decreases
+				nlc.Assigns = lc.Assigns
 			}
 			lc = nlc
 			break
@@ -891,7 +911,13 @@ func (fr *Frame) execLoopCut(l *Loop, in []*Edge) map[*ssa.BasicBlock][]*Edge {
 	mod := map[string]bool{}
 	modGhost := map[string]bool{}
 	wmChanged := false
+	var frames map[string][]string
+	startName := vc.nname
 	for round := 0; round < 4; round++ {
+		vc.storeLog = nil
+		vc.allocLog = map[string]bool{}
+		saveLog := vc.logStores
+		vc.logStores = true
 		snapItems, snapSeen, snapUnsup := len(vc.items), copyCounts(vc.obSeen), len(vc.unsup)
 		snapRets, snapClos, snapNotes := len(fr.rets), len(vc.closures), len(vc.notes)
 		snapVals := fr.vals
@@ -926,20 +952,58 @@ func (fr *Frame) execLoopCut(l *Loop, in []*Edge) map[*ssa.BasicBlock][]*Edge {
 			check(e.st)
 		}
 		vc.items = vc.items[:snapItems]
+		vc.dropAxiomsFrom(snapItems)
 		vc.obSeen = snapSeen
 		vc.unsup = vc.unsup[:snapUnsup]
 		fr.vals = snapVals
 		fr.rets = fr.rets[:snapRets]
 		vc.closures = vc.closures[:snapClos]
 		vc.notes = vc.notes[:snapNotes]
+		vc.logStores = saveLog
 		if !grew {
+			frames = vc.inferLoopFrame(vc.storeLog, vc.allocLog, startName+1)
 			break
 		}
+	}
+	if saveLogOuter := vc.logStores; saveLogOuter {
+		// nested inside another loop's trial: keep logging for the outer loop
+		_ = saveLogOuter
 	}
 
 	// 3. real run
 	fr.reach, fr.st = reachIn, pre
 	head := fr.havocHead(l, phis, pre, mod, modGhost, wmChanged, lc, reachIn)
+	for _, k := range sortedKeys(mod) {
+		if ex, ok := frames[k]; ok {
+			nw, old, wm := head.st.heap[k], vc.arr(pre, leafByKey[k]), pre.wm
+			exc := ex
+			vc.addAxiom(k, frameAxiom(nw, old, wm, exc), func(idx string) (string, []string) {
+				cs := []string{lt(idx, wm)}
+				for _, e := range exc {
+					cs = append(cs, neq(idx, e))
+				}
+				return imp(and(cs...), eq(sel(nw, idx), sel(old, idx))), nil
+			})
+		}
+	}
+	var loopLocs []assignLoc
+	if lc != nil && len(lc.Assigns) > 0 {
+		save := fr.st
+		fr.st = pre
+		loopLocs, _, _ = fr.assignLocs(lc.Assigns, fr.loopScope(l, phis, entryPhi), pre)
+		fr.st = save
+		for _, k := range sortedKeys(mod) {
+			if _, ok := frames[k]; ok {
+				continue // already framed exactly by inference
+			}
+			nw, old, wm := head.st.heap[k], vc.arr(pre, leafByKey[k]), pre.wm
+			inside := locsCover(loopLocs, k)
+			vc.addAxiom(k, fmt.Sprintf("(forall ((a Int)) (! (=> %s (= (select %s a) (select %s a))) :pattern ((select %s a))))",
+				and(lt("a", wm), not(inside("a"))), nw, old, nw), func(idx string) (string, []string) {
+				return imp(and(lt(idx, wm), not(inside(idx))), eq(sel(nw, idx), sel(old, idx))), nil
+			})
+		}
+	}
 	headVals := make([]*Val, len(phis))
 	for k, phi := range phis {
 		headVals[k] = fr.vals[phi]
@@ -973,6 +1037,21 @@ func (fr *Frame) execLoopCut(l *Loop, in []*Edge) map[*ssa.BasicBlock][]*Edge {
 			t := fr.evalGoal(inv.Expr, scope, e.st, fr.entry)
 			vc.obligeNamed(fr, fmt.Sprintf("%s/loop%d/inv-preserved/%d@%d", fname, l.ord, i, li), "inv-preserved", t, inv.Tags, inv.Src)
 		}
+		if len(loopLocs) > 0 {
+			for _, k := range sortedKeys(mod) {
+				if _, ok := frames[k]; ok {
+					continue
+				}
+				lf := leafByKey[k]
+				a := vc.fresh("lf_a", "Int")
+				inside := locsCover(loopLocs, k)
+				now := vc.read(e.st, lf, a)
+				was := vc.read(head.st, lf, a)
+				vc.obligeNamed(fr, fmt.Sprintf("%s/loop%d/frame/%s@%d", fname, l.ord, k, li), "loop-frame",
+					imp(and(le("1", a), lt(a, pre.wm), not(inside(a))), eq(now, was)), nil,
+					"one iteration changes nothing outside the loop's assigns clause ("+strings.TrimPrefix(k, "H_")+")")
+			}
+		}
 		for i, d := range lc.Decreases {
 			now := fr.evalInt(d.Expr, scope, e.st, fr.entry)
 			vc.obligeNamed(fr, fmt.Sprintf("%s/loop%d/decreases/%d@%d", fname, l.ord, i, li), "decreases",
@@ -1002,7 +1081,7 @@ func (fr *Frame) havocHead(l *Loop, phis []*ssa.Phi, pre *State, mod, modGhost m
 		lf := leafByKey[k]
 		old := vc.arr(pre, lf)
 		st.heap[k] = vc.fresh(k, "(Array Int "+lf.Sort+")")
-		vc.staticFrame(st.heap[k], old)
+		vc.staticFrame(k, st.heap[k], old)
 	}
 	for _, k := range sortedKeys(modGhost) {
 		st.ghost[k] = vc.fresh("g_"+k, ghostSort(k))
@@ -1029,4 +1108,28 @@ func (fr *Frame) loopScope(l *Loop, phis []*ssa.Phi, phiVals []*Val) map[string]
 		}
 	}
 	return scope
+}
+
+// locsCover returns a predicate "address a of heap key k lies in one of the locations".
+func locsCover(locs []assignLoc, k string) func(a string) string {
+	return func(a string) string {
+		var cs []string
+		for _, loc := range locs {
+			if loc.cell {
+				for _, l := range flatten(loc.t) {
+					if l.Key == k {
+						cs = append(cs, eq(a, add(loc.addr, intLit(int64(l.Slot)))))
+					}
+				}
+				continue
+			}
+			for _, l := range flatten(loc.elemT) {
+				if l.Key == k {
+					cs = append(cs, and(le(loc.lo, a), lt(a, loc.hi)))
+					break
+				}
+			}
+		}
+		return or(cs...)
+	}
 }
